@@ -299,7 +299,7 @@ func (c *userTypesCollector) collect(node internalSchema.Node) {
 	case *internalSchema.MixedValueNode:
 		for _, ut := range strings.Split(n.Value().String(), "|") {
 			s := strings.TrimSpace(ut)
-			if s[0] == '@' {
+			if strings.HasPrefix(s, "@") {
 				c.addType(s)
 			}
 		}
@@ -318,7 +318,7 @@ func (c *userTypesCollector) collectUserTypesFromTypesListConstraint(node intern
 	}
 
 	for _, name := range list.Names() {
-		if name[0] == '@' {
+		if strings.HasPrefix(name, "@") {
 			c.addType(name)
 		}
 	}
@@ -336,7 +336,7 @@ func (c *userTypesCollector) collectUserTypesFromTypeConstraint(node internalSch
 	}
 
 	name := typ.Bytes().Unquote().String()
-	if name[0] == '@' {
+	if strings.HasPrefix(name, "@") {
 		c.addType(name)
 	}
 }
@@ -353,7 +353,7 @@ func (c *userTypesCollector) collectUserTypesFromAllOfConstraint(node internalSc
 	}
 
 	for _, name := range allOf.SchemaNames() {
-		if name[0] == '@' {
+		if strings.HasPrefix(name, "@") {
 			c.addType(name)
 		}
 	}
@@ -380,7 +380,7 @@ func (c *userTypesCollector) collectUserTypesObjectNode(node *internalSchema.Obj
 		k := v.Key
 
 		if v.IsShortcut {
-			if k[0] == '@' {
+			if strings.HasPrefix(k, "@") {
 				c.addType(k)
 			}
 		}
